@@ -1589,6 +1589,14 @@ def _run_updatepol(case, ck, d):
              np.array([300.0, 400.0, 0.0], dtype="float16"),
              np.array([3, 4], dtype="int8"),
              np.array([0.6, 0.8], dtype="float32")]
+    import xarray as xr
+    # ... and the same kind of array labelled along `vector`
+    spell += [xr.DataArray(np.array(v, dtype=dt), dims="vector",
+                           coords={"vector": ["x", "y", "z"]})
+              for v, dt in (([0.6, 0.8, 0.0], "float32"),
+                            ([300.0, 400.0, 0.0], "float16"),
+                            ([3.0, 4.0, 0.0], "float16"),
+                            ([100, 100, 0], "int8"))]
     for p in spell:
         what = "update_metadata(illum_polarization=%r)" % (p,)
         try:
